@@ -1,6 +1,7 @@
 import Driver.CifArg
 import CifModel.Model.Parser
 import CifModel.Model.ParserTrace
+import CifModel.Model.ParserStoreOps
 import CifModel.Model.Fill
 /-
   family `parse` (C03; also the request language of `parsedoc` (C01) and `defect` (C12)):
@@ -12,6 +13,11 @@ import CifModel.Model.Fill
   `ops` = the numbers of successful store calls the instrumented parser (Model/ParserTrace.lean) records: blocks created, save
   frames created, cif_container_set_value, cif_container_create_loop, cif_loop_add_packet, cif_container_prune — the executor
   counts the same calls of the real parser.
+  `sto` (model side only; fresh target): the trace translated into a history of the STORE model (Model/ParserStoreOps.storeOps) and
+  run through `Store.step` from a new CIF: `ok` = every call returned CIF_OK and the store then shows (`Store.abs`) exactly the CIF
+  the parser model built (same enumeration orders); `ord` = the same content in another order; `BAD…` = the composition of the
+  two models fails on this input (a disagreement for the generator's `agree`); `skip` = the trace contains a call that
+  `Store.Op` cannot express (lenient creation) or the target was not fresh.
 
   (formats: harness/x_parse.c).  The units the scanner sees are those of the one-fill case of Model/Fill.lean
   (get_first_char, then one get_more_chars that reads everything).  Extra whitespace / end-of-line characters of the option
@@ -85,8 +91,20 @@ def answer (args : List String) : Option String :=
     let tr := storeTrace o policy initial units
     let cnt (p : SOp → Bool) : Nat := (tr.filter p).length
     let ops := s!"{cnt (fun | .mkBlock .. => true | _ => false)},{cnt (fun | .mkFrame .. => true | _ => false)},{cnt (fun | .setVal .. => true | _ => false)},{cnt (fun | .mkLoop .. => true | _ => false)},{cnt (fun | .addPkt .. => true | _ => false)},{cnt (fun | .prune .. => true | _ => false)}"
+    let sto : String :=
+      if tgt != "e" then "skip" else
+      match storeOps o tr with
+      | none => "skip"
+      | some sops =>
+        match storeRun sops with
+        | (none, _) => "BADnocif"
+        | (some st, okAll) =>
+          if !okAll then "BADrc"
+          else if CifArg.showCif (Store.abs st.db) == CifArg.showCif out.cif then "ok"
+          else if CifArg.showCanonCif (Store.abs st.db) == CifArg.showCanonCif out.cif then "ord"
+          else "BAD"
     let dump := if store then (let t := CifArg.showCanonCif out.cif; if t.isEmpty then " -" else t) else "~"
-    pure s!"ps rc={out.rc} n={out.log.length} log={joinOrDash (out.log.map fun r => s!"{r.code}:{r.line}")} ops={ops} cif={dump}"
+    pure s!"ps rc={out.rc} n={out.log.length} log={joinOrDash (out.log.map fun r => s!"{r.code}:{r.line}")} ops={ops} sto={sto} cif={dump}"
   | _ => none
 
 def handle : Handler := answer
